@@ -9,13 +9,7 @@ from . import VERIF_DIR
 
 ALL = [f"C{i:02d}" for i in range(1, 21)]
 
-NOT_APPLICABLE = {
-    "C17": "quantifies over process histories, thread schedules and fresh interpreters of whole-program "
-           "runs; the state that could leak lives in C-level interpreter structures (lru_cache tables, "
-           "logging, import system) that CrossHair realises rather than models, and it has no thread "
-           "model; a hand model of 'a cache keyed by its arguments' would restate the property "
-           "(DESIGN.md section 5).",
-}
+NOT_APPLICABLE = {}     # every property has a check; C17 is claimed for its history fragment only (see its level_note)
 
 
 def main():
